@@ -44,6 +44,7 @@ type loopContext struct {
 	exitBlock   *BasicBlock // Loop exit point
 	elseBlock   *BasicBlock // Loop else clause (optional)
 	loopType    string      // "for" or "while"
+	excDepth    int         // Depth of the exception stack when the loop was entered
 }
 
 // exceptionContext tracks the context of a try block for exception handling
@@ -296,6 +297,10 @@ func (b *CFGBuilder) processStatement(stmt *parser.Node) {
 					b.processStatement(blockStmt)
 				}
 			}
+		}
+		// The else clause of a for/while loop carries its statements in Body
+		for _, bodyStmt := range stmt.Body {
+			b.processStatement(bodyStmt)
 		}
 		return
 	}
@@ -705,9 +710,9 @@ func (b *CFGBuilder) processForStatement(stmt *parser.Node) {
 		exitBlock:   exitBlock,
 		elseBlock:   elseBlock,
 		loopType:    "for",
+		excDepth:    len(b.exceptionStack),
 	}
 	b.pushLoopContext(loopCtx)
-	defer b.popLoopContext()
 
 	// Connect header to body (loop condition true - has more items)
 	b.cfg.ConnectBlocks(headerBlock, bodyBlock, EdgeCondTrue)
@@ -729,6 +734,10 @@ func (b *CFGBuilder) processForStatement(stmt *parser.Node) {
 	if !b.hasSuccessor(b.currentBlock, b.cfg.Exit) {
 		b.cfg.ConnectBlocks(b.currentBlock, headerBlock, EdgeLoop)
 	}
+
+	// The else clause is outside the loop: a break/continue there belongs to
+	// the enclosing loop
+	b.popLoopContext()
 
 	// Process else clause if present
 	if elseBlock != nil {
@@ -773,9 +782,9 @@ func (b *CFGBuilder) processWhileStatement(stmt *parser.Node) {
 		exitBlock:   exitBlock,
 		elseBlock:   elseBlock,
 		loopType:    "while",
+		excDepth:    len(b.exceptionStack),
 	}
 	b.pushLoopContext(loopCtx)
-	defer b.popLoopContext()
 
 	// Connect header to body (condition true)
 	b.cfg.ConnectBlocks(headerBlock, bodyBlock, EdgeCondTrue)
@@ -797,6 +806,10 @@ func (b *CFGBuilder) processWhileStatement(stmt *parser.Node) {
 	if !b.hasSuccessor(b.currentBlock, b.cfg.Exit) {
 		b.cfg.ConnectBlocks(b.currentBlock, headerBlock, EdgeLoop)
 	}
+
+	// The else clause is outside the loop: a break/continue there belongs to
+	// the enclosing loop
+	b.popLoopContext()
 
 	// Process else clause if present
 	if elseBlock != nil {
@@ -832,7 +845,7 @@ func (b *CFGBuilder) processBreakStatement(stmt *parser.Node) {
 	// blocks we're currently processing (to avoid self-loops), until we find the first
 	// enclosing finally block that hasn't been entered yet.
 	var targetFinallyBlock *BasicBlock
-	for i := len(b.exceptionStack) - 1; i >= 0; i-- {
+	for i := len(b.exceptionStack) - 1; i >= loopCtx.excDepth; i-- {
 		exceptionCtx := b.exceptionStack[i]
 		// Skip if currently processing this finally block (break is inside finally)
 		if exceptionCtx.processingFinally {
@@ -875,7 +888,7 @@ func (b *CFGBuilder) processContinueStatement(stmt *parser.Node) {
 	// blocks we're currently processing (to avoid self-loops), until we find the first
 	// enclosing finally block that hasn't been entered yet.
 	var targetFinallyBlock *BasicBlock
-	for i := len(b.exceptionStack) - 1; i >= 0; i-- {
+	for i := len(b.exceptionStack) - 1; i >= loopCtx.excDepth; i-- {
 		exceptionCtx := b.exceptionStack[i]
 		// Skip if currently processing this finally block (continue is inside finally)
 		if exceptionCtx.processingFinally {
@@ -1065,13 +1078,23 @@ func (b *CFGBuilder) processTryStatement(stmt *parser.Node) {
 
 		// Break/Continue propagation: if this finally is inside a loop,
 		// connect to the next outer finally or to the loop exit/header.
-		if len(b.loopStack) > 0 {
+		if len(b.loopStack) > 0 && len(b.exceptionStack)-1 >= b.loopStack[len(b.loopStack)-1].excDepth {
 			loopCtx := b.loopStack[len(b.loopStack)-1]
 
+			// Only finally blocks of try statements inside the loop are passed
+			// through by a break/continue of that loop.
+			var nextLoopFinally *BasicBlock
+			for i := len(b.exceptionStack) - 2; i >= loopCtx.excDepth; i-- {
+				if b.exceptionStack[i].finallyBlock != nil {
+					nextLoopFinally = b.exceptionStack[i].finallyBlock
+					break
+				}
+			}
+
 			// Break propagation
-			if nextOuterFinally != nil {
-				if !b.hasSuccessor(finallyBlock, nextOuterFinally) {
-					b.cfg.ConnectBlocks(finallyBlock, nextOuterFinally, EdgeBreak)
+			if nextLoopFinally != nil {
+				if !b.hasSuccessor(finallyBlock, nextLoopFinally) {
+					b.cfg.ConnectBlocks(finallyBlock, nextLoopFinally, EdgeBreak)
 				}
 			} else {
 				if !b.hasSuccessor(finallyBlock, loopCtx.exitBlock) {
@@ -1080,9 +1103,9 @@ func (b *CFGBuilder) processTryStatement(stmt *parser.Node) {
 			}
 
 			// Continue propagation
-			if nextOuterFinally != nil {
-				if !b.hasSuccessor(finallyBlock, nextOuterFinally) {
-					b.cfg.ConnectBlocks(finallyBlock, nextOuterFinally, EdgeContinue)
+			if nextLoopFinally != nil {
+				if !b.hasSuccessor(finallyBlock, nextLoopFinally) {
+					b.cfg.ConnectBlocks(finallyBlock, nextLoopFinally, EdgeContinue)
 				}
 			} else {
 				if !b.hasSuccessor(finallyBlock, loopCtx.headerBlock) {
